@@ -111,6 +111,14 @@ int hx_in_child(void (*fn)(void *arg, FILE *o), void *arg, char *outbuf, size_t 
 static const hx_op *const tables[] = { ops_c14, ops_c16, ops_c15, ops_c03, ops_c04, ops_c09, ops_c01, ops_c18, ops_c17, ops_c20, ops_c10, ops_c05, ops_c13, ops_c08, ops_c19, ops_c11, ops_c12, NULL };
 
 /* run one op line (modified in place by strtok) and print exactly one line to `o` */
+/* HX_FILL=<0..255>: before every op the stack area the op functions are about to use is filled with that byte, so OUTPUT buffers (stack arrays of the op
+   functions, never initialised by the harness) start from a chosen content instead of whatever the previous op left: "for all buffers" includes what an output
+   buffer holds before the call (all-ones is the interesting content: non-canonical field / scalar encodings, maximal lengths, set top bits). */
+static int hx_fill = -1;
+static void __attribute__((noinline)) hx_stack_fill(int v) {
+    volatile unsigned char a[1 << 17]; size_t i;
+    for (i = 0; i < sizeof a; i++) a[i] = (unsigned char) v;
+}
 void hx_dispatch(char *line, FILE *o) {
     char **argv = NULL; size_t argcap = 0; int argc = 0, handled = 0; char *save, *tok; size_t t;
     size_t n = strlen(line);
@@ -120,6 +128,8 @@ void hx_dispatch(char *line, FILE *o) {
         argv[argc++] = tok;
     }
     if (argc == 0) { fputs("empty\n", o); free(argv); return; }
+    if (hx_fill == -1) { const char *e = getenv("HX_FILL"); hx_fill = e ? (atoi(e) & 255) : -2; }
+    if (hx_fill >= 0) hx_stack_fill(hx_fill);
     if (strcmp(argv[0], "rt.flags") == 0) {
         fprintf(o, "sse2=%d sse3=%d ssse3=%d sse41=%d avx=%d avx2=%d avx512f=%d pclmul=%d aesni=%d rdrand=%d gcm=%d\n",
                sodium_runtime_has_sse2(), sodium_runtime_has_sse3(), sodium_runtime_has_ssse3(), sodium_runtime_has_sse41(),
